@@ -40,6 +40,10 @@ type Ev struct {
 	Async bool   `json:"a,omitempty"` // memory instruction: only the destination is compared
 	Dst   string `json:"dst,omitempty"`
 	DstOp string `json:"dstop,omitempty"`
+	// emulation side, FLAT/GLOBAL accesses: EXEC (8 bytes), 64 lane addresses
+	// (8 bytes each) and, for stores, 64 x n data dwords
+	Mem string `json:"mem,omitempty"`
+	Seq int    `json:"seq,omitempty"` // global order of the emulation's execution
 }
 
 // WfSum is the per-wavefront summary kept in normal (hash) mode.
@@ -74,6 +78,7 @@ type collector struct {
 	byTask   map[string]taskRef
 	opcodes  map[string]int
 	total    int
+	cdna3    bool
 }
 
 type taskRef struct {
@@ -248,7 +253,51 @@ func (c *collector) Func(ctx sim.HookCtx) {
 			ev.Init = initState(wf)
 		}
 		c.state(ev, wf, in)
+		ev.Seq = c.total
+		if in.FormatType == insts.FLAT {
+			ev.Mem = c.memAccess(wf, in)
+		}
 	}
+}
+
+// memAccess records the lane addresses (and store data) of a FLAT access the
+// way the emulation ALU computes them.
+func (c *collector) memAccess(w regReader, in *insts.Inst) string {
+	raw := binary.LittleEndian.AppendUint64(nil, w.EXEC())
+	hasS := in.SAddr != nil && in.SAddr.IntValue != 0x7F && (c.cdna3 || in.SAddr.IntValue != 0)
+	var base uint64
+	if hasS {
+		r := int(in.SAddr.IntValue)
+		base = w.ReadOperand(insts.NewSRegOperand(r, r, 2), 0)
+	}
+	for lane := 0; lane < 64; lane++ {
+		a := w.ReadOperand(in.Addr, lane)
+		if hasS {
+			a = base + (a & 0xffffffff)
+		}
+		a += uint64(int64(int32(in.Offset0)))
+		raw = binary.LittleEndian.AppendUint64(raw, a)
+	}
+	n := 0
+	switch in.Opcode {
+	case 28:
+		n = 1
+	case 29:
+		n = 2
+	case 30:
+		n = 3
+	case 31:
+		n = 4
+	}
+	if n > 0 && in.Data != nil && in.Data.Register != nil {
+		b := in.Data.Register.RegIndex()
+		for lane := 0; lane < 64; lane++ {
+			for j := 0; j < n; j++ {
+				raw = binary.LittleEndian.AppendUint32(raw, uint32(w.ReadOperand(insts.NewVRegOperand(b+j, b+j, 1), lane)))
+			}
+		}
+	}
+	return base64.StdEncoding.EncodeToString(raw)
 }
 
 // ---- timing: tracer on every timing compute unit (PC at issue)
